@@ -1629,7 +1629,7 @@ class Stream(AbstractStream):
         if TP and flow and (phase or self._imol.data.ndim == 2):
             self._imol._data_cache = other._imol._data_cache
         else:
-            self._imol._data_cache.clear()
+            self._imol._data_cache = {}
         if TP:
             self._thermal_condition = other._thermal_condition
         if flow:
@@ -1674,7 +1674,7 @@ class Stream(AbstractStream):
                 raise RuntimeError('phase is locked; stream cannot be unlinked')
             else:
                 imol._phase = imol._phase.copy()
-        imol._data_cache.clear()
+        imol._data_cache = {}
         imol.data = imol.data.copy()
         self._thermal_condition = self._thermal_condition.copy()
         self.reset_cache()
